@@ -391,7 +391,32 @@ def rule_utc_session(ctx):
             f.rule = "C10.g"
 
 
+def rule_number_precision_kept(ctx):
+    """C10.i: TO_DECIMAL / TO_NUMBER / TRY_TO_DECIMAL(x, p, s) and x::NUMBER(p, s) become casts to DECIMAL(p, s); the type keeps its
+    parameters through every later stage — also for s = 0 (TRY_TO_DECIMAL('12345', 3, 0) is NULL, not 12345)."""
+    from .c01 import _final_type
+
+    prog = ctx.prog
+    loc = prog.mod("cursor").loc(prog.fn("cursor", "FakeSnowflakeCursor._transform"))
+    n = 0
+    for label, scale in (("NUMBER(10,2)", "2"), ("NUMBER(10,0)", "0")):
+        for mem, has_params in _final_type(prog, "DECIMAL", True, scale=scale):
+            n += 1
+            if mem == "?":
+                ctx.ob("C10.i", f"{label}: pipeline result readable", None, loc)
+                continue
+            ok = mem == "DECIMAL" and has_params
+            ctx.ob("C10.i", f"a cast to {label} keeps precision and scale through the pipeline", ok, loc, f"{mem}{'(p,s)' if has_params else ''}")
+            if not ok:
+                ctx.violation("C10.i", "cursor", "FakeSnowflakeCursor._transform", f"{label} -> {mem}", loc,
+                              f"the target type of TO_DECIMAL(x, {label[7:-1]}) / x::{label} leaves the pipeline as {mem}{'' if has_params else ' without parameters'}: "
+                              f"the precision limit is gone (TRY_TO_DECIMAL('12345', 3, 0) returns 12345 instead of NULL, TO_DECIMAL accepts values "
+                              f"Snowflake rejects)")
+    ctx.floor("C10.i parameterised NUMBER types", n, 2)
+
+
 RULES = [
+    ("C10.i", rule_number_precision_kept, ("quick", "thorough")),
     ("C10.h", rule_self_nesting, ("quick", "thorough")),
     ("C10.g", rule_utc_session, ("quick", "thorough")),
     ("C10.f", rule_closure, ("quick", "thorough")),
